@@ -97,20 +97,20 @@ type gen struct {
 	nextID  int
 	nameSeq int
 	ws      *Workspace
-	types   []*typeInfo          // all types generated so far, in order
+	types   []*typeInfo               // all types generated so far, in order
 	extNums map[string]map[int32]bool // extendee full name -> used extension numbers
-	pubOf   map[string][]string  // file path -> paths it publicly imports
-	optFile *File                // custom options file (if any)
+	pubOf   map[string][]string       // file path -> paths it publicly imports
+	optFile *File                     // custom options file (if any)
 	optDefs []optDef
 	used    map[string]bool // global name uniqueness (simple names)
 }
 
 type optDef struct {
-	target string // "FileOptions", "MessageOptions", "FieldOptions", "EnumOptions", "EnumValueOptions", "ServiceOptions", "MethodOptions", "OneofOptions"
-	name   string // "(pkg.name)"
-	typ    string // int32 | string | bool | message
-	msg    string // message type full name for typ == message
-	repeated bool
+	target          string // "FileOptions", "MessageOptions", "FieldOptions", "EnumOptions", "EnumValueOptions", "ServiceOptions", "MethodOptions", "OneofOptions"
+	name            string // "(pkg.name)"
+	typ             string // int32 | string | bool | message
+	msg             string // message type full name for typ == message
+	repeated        bool
 	sourceRetention bool
 }
 
@@ -119,15 +119,32 @@ func (g *gen) id(prefix string) string {
 	return fmt.Sprintf("%s%d", prefix, g.nextID)
 }
 
+// bits draws n fair bits (rapid's integer generators are biased towards small values, which would
+// skew every percentage below; fair coins are not). All-zero is what shrinking converges to.
+func (g *gen) bits(label string, n int) int {
+	v := 0
+	for i := 0; i < n; i++ {
+		v <<= 1
+		if rapid.Bool().Draw(g.t, label) {
+			v |= 1
+		}
+	}
+	return v
+}
+
 func (g *gen) intn(label string, lo, hi int) int {
 	if hi <= lo {
 		return lo
 	}
+	if hi-lo < 64 {
+		return lo + g.bits(label, 10)%(hi-lo+1)
+	}
 	return rapid.IntRange(lo, hi).Draw(g.t, label)
 }
 
+// pct is true with probability p/100; shrinks to false.
 func (g *gen) pct(label string, p int) bool {
-	return rapid.IntRange(0, 99).Draw(g.t, label) < p
+	return g.bits(label, 7) >= 128-(p*128+50)/100
 }
 
 // word returns a fresh lower-case identifier unique in the whole workspace.
@@ -359,12 +376,10 @@ func (g *gen) needImport(f *File, path string) {
 			return
 		}
 	}
-	// reachable through a public import of an already imported file?
+	// reachable through a (transitive) public import of an already imported file?
 	for _, i := range f.Imports {
-		for _, p := range g.pubOf[i.Path] {
-			if p == path {
-				return
-			}
+		if g.publiclyReaches(i.Path, path, map[string]bool{}) {
+			return
 		}
 	}
 	imp := Import{Path: path}
@@ -373,6 +388,19 @@ func (g *gen) needImport(f *File, path string) {
 		g.pubOf[f.Path] = append(g.pubOf[f.Path], path)
 	}
 	f.Imports = append(f.Imports, imp)
+}
+
+func (g *gen) publiclyReaches(from, to string, seen map[string]bool) bool {
+	if seen[from] {
+		return false
+	}
+	seen[from] = true
+	for _, p := range g.pubOf[from] {
+		if p == to || g.publiclyReaches(p, to, seen) {
+			return true
+		}
+	}
+	return false
 }
 
 var wktTypes = []struct{ path, typ string }{
@@ -452,10 +480,8 @@ func (g *gen) genFileBody(f *File) {
 			if i.Path == cand.Path {
 				has = true
 			}
-			for _, p := range g.pubOf[i.Path] {
-				if p == cand.Path {
-					has = true
-				}
+			if g.publiclyReaches(i.Path, cand.Path, map[string]bool{}) {
+				has = true
 			}
 		}
 		if !has && cand.Path != f.Path && len(g.pubOf[cand.Path]) == 0 {
